@@ -510,10 +510,10 @@ func programLine(l []byte, bh *Header) error {
 }
 
 func commentLine(l []byte, bh *Header) error {
-	fields := bytes.Split(l, []byte{'\t'})
-	if len(fields) < 2 {
+	// The comment is all that follows "@CO\t"; it may contain tabs.
+	if len(l) < 4 || l[3] != '\t' {
 		return errBadHeader
 	}
-	bh.Comments = append(bh.Comments, string(fields[1]))
+	bh.Comments = append(bh.Comments, string(l[4:]))
 	return nil
 }
